@@ -39,14 +39,17 @@ pub struct GenCfg {
     /// C12's small sub-family: few ticks, short durations, shunting in {0, 1 tick}, dead-heads in
     /// {0, 1, 3 ticks} so that ties and non-transitive reachability are the rule
     pub small_grid: bool,
+    /// bias towards several rotation cycles per type (C16/C04/C05): more tracks per slot, a
+    /// maintenance allowance that makes counters negative, default depots at several locations
+    pub cycle_rich: bool,
 }
 
 impl GenCfg {
     pub const fn quick() -> GenCfg {
-        GenCfg { max_departures: 8, max_slots: 3, force_slots: false, heavy_demand: false, max_need: 6, max_total_need: 22, single_type: false, small_grid: false }
+        GenCfg { max_departures: 8, max_slots: 3, force_slots: false, heavy_demand: false, max_need: 6, max_total_need: 22, single_type: false, small_grid: false, cycle_rich: false }
     }
     pub const fn thorough() -> GenCfg {
-        GenCfg { max_departures: 16, max_slots: 4, force_slots: false, heavy_demand: false, max_need: 6, max_total_need: 36, single_type: false, small_grid: false }
+        GenCfg { max_departures: 16, max_slots: 4, force_slots: false, heavy_demand: false, max_need: 6, max_total_need: 36, single_type: false, small_grid: false, cycle_rich: false }
     }
 }
 
@@ -250,7 +253,7 @@ pub fn decode_inst(t: &Tape, cfg: &GenCfg, prefix: &str) -> Inst {
         let loc = pick(f(r, 0), nlocs);
         let tick = if cfg.small_grid { pick(f(r, 1), 8) as i64 } else { pick(f(r, 1), 144) as i64 };
         let duration = if cfg.small_grid { choose(f(r, 2), &[600i64, 1200]) } else { choose(f(r, 2), &[3600i64, 600, 14400]) };
-        let tracks = 1 + pick_w(f(r, 3), &[4, 3, 1]) as u64;
+        let tracks = if cfg.cycle_rich { 2 + pick_w(f(r, 3), &[3, 2]) as u64 } else { 1 + pick_w(f(r, 3), &[4, 3, 1]) as u64 };
         slot_list.push(SlotIn {
             id: format!("{}M{}", prefix, i),
             location: locs[loc].clone(),
@@ -277,7 +280,7 @@ pub fn decode_inst(t: &Tape, cfg: &GenCfg, prefix: &str) -> Inst {
             r.segs.iter().map(|s| s.distance).sum::<u64>()
         })
         .sum();
-    let max_distance = match pick_w(f(p, 3), &[2, 2, 4, 3, 2]) {
+    let max_distance = match pick_w(f(p, 3), if cfg.cycle_rich { &[0, 0, 2, 5, 4] } else { &[2, 2, 4, 3, 2] }) {
         0 => None,
         1 => Some(0),
         2 => Some(one_trip + choose(f(p, 3) << 4, &[0u64, 1000, 20_000])),
@@ -286,7 +289,7 @@ pub fn decode_inst(t: &Tape, cfg: &GenCfg, prefix: &str) -> Inst {
     };
 
     // ---- depots
-    let depots = if pick_w(f(p, 10), &[2, 3]) == 0 {
+    let depots = if pick_w(f(p, 10), if cfg.cycle_rich { &[3, 2] } else { &[2, 3] }) == 0 {
         None
     } else {
         let mut out = Vec::new();
